@@ -43,6 +43,15 @@ CLAIMS = {
         'logs and by resume scripts on std::stringstream (text, status, tellg).',
    note=NOTE_COMMON + 'std::istream (read/gcount/clear/seekg/tellg) is modelled as bytes + remaining suffix and tied by correspondence only.',
    design='4/C12', technique='Coq proof over an explicit prefix/cut function + resume invariant; exhaustive-cut differential correspondence'),
+ 'C17': dict(
+   text='Theorems C17_ticks_exact, C17_civil_from_days_correct (for EVERY integer day number; era sweep of 146097 days inside the kernel + shift lemmas), '
+        'C17_utc_time_denotes_instant, C17_local_time_denotes_instant, C17_no_sync_placeholder (Coq, closed): for every clock sync with f in [1, 9223372036], syncTime < 2^63 '
+        'and every clock value whose instant lies in [0, 2^63) ns, no intermediate overflow occurs, the value computed is the exact instant truncated to ns (< 1 ns error), and '
+        'the broken-down time printed (UTC, and zone-shifted incl. negative local times) denotes it exactly in the proleptic Gregorian calendar. Instantiated with the shape of '
+        'the arithmetic read off Time.cpp/PrettyPrinter.cpp on every run; model tied by differential runs aimed at the overflow and calendar boundaries and by an exact-rational '
+        'reference evaluated on the implementation.',
+   note=NOTE_COMMON + 'gmtime_r and snprintf are libc: modelled (civil_from_days, decimal printers) and tied by correspondence only; drivers compiled with -fwrapv.',
+   design='4/C17', technique='Coq proof (Z arithmetic with explicit int64 wrap, finite sweep lifted by lemma for the calendar) + differential correspondence'),
 }
 REASON_NOT_BUILT = 'not built yet in this round: no theorem/correspondence for it is registered; not claimed at a lower level by another technique'
 m = {'version': 1, 'setup_cmd': './setup.sh',
